@@ -45,7 +45,7 @@ type Tape struct {
 var framings = []string{"init-krb5", "init-ms", "init-ntlm-first", "init-empty", "init-foreign", "init-nomechtoken", "resp", "resp-nomech", "resp-foreign", "resp-notoken-completed", "resp-notoken-incomplete", "raw"}
 var etypes = []int{18, 17, 19, 20, 16, 23}
 var defects = []string{"wrong-key", "wrong-kvno-label", "wrong-realm-label", "wrong-sname-label", "ticket-usage", "auth-usage-7", "auth-wrong-key", "flag-invalid",
-	"tkt-flip", "tkt-trunc", "tkt-forged-plain-appended", "auth-flip", "auth-trunc", "cname-mismatch", "cname-extra-component", "cname-fewer-components", "cname-empty", "crealm-mismatch", "t-end", "t-start", "t-ctime-old", "t-ctime-future"}
+	"tkt-flip", "tkt-trunc", "tkt-forged-plain-appended", "tkt-extra-optionals", "auth-flip", "auth-trunc", "cname-mismatch", "cname-extra-component", "cname-fewer-components", "cname-empty", "crealm-mismatch", "t-end", "t-start", "t-ctime-old", "t-ctime-future"}
 
 func Meta() core.Meta {
 	nsweep := len(framings)*3*2 + len(defects)*4 + 40
